@@ -206,8 +206,29 @@ fn check(case: &Case, ctx: &mut Ctx) {
     }
 
     // ---- rounds of interval replication, generated delivery order ---------------------------------
+    // "after enough rounds": the generated number of rounds runs first; after that rounds go on for as
+    // long as they still change some node's store (at most 8 more), and convergence is judged at that
+    // fixpoint — a round that changes nothing cannot be followed by one that does.
     let mut si = 0usize;
-    for _round in 0..case.rounds {
+    let mut _round = 0usize;
+    let mut before_round: Vec<BTreeMap<Vec<u8>, Vec<u8>>> = vec![];
+    let mut extra_rounds = 0usize;
+    loop {
+        if _round >= case.rounds as usize {
+            let now: Vec<BTreeMap<Vec<u8>, Vec<u8>>> = (0..n).map(|i| cl.snapshot(i)).collect();
+            if now == before_round {
+                break;
+            }
+            if _round >= case.rounds as usize + 8 {
+                ctx.label("inconclusive_no_fixpoint_within_8_extra_rounds");
+                return;
+            }
+            if _round > case.rounds as usize {
+                extra_rounds += 1;
+            }
+        }
+        before_round = (0..n).map(|i| cl.snapshot(i)).collect();
+        _round += 1;
         let mut held_at_trigger: Vec<BTreeSet<Vec<u8>>> = vec![];
         let lists_before = cl.replicate_lists.len();
         for i in 0..n {
@@ -360,6 +381,7 @@ fn check(case: &Case, ctx: &mut Ctx) {
         }
     }
     ctx.label(format!("nodes_{n}"));
+    ctx.label_if(extra_rounds > 0, "rounds_continued_until_fixpoint");
     ctx.label_if(mutable_diverged, "mutable_record_diverging");
     ctx.label_if(chunk_missing_somewhere, "immutable_record_missing_on_a_node");
     ctx.label_if(case.stranger, "stranger_list");
